@@ -65,6 +65,9 @@ def _producer(rng, fs, cfg):
             op["form"] = "iter"
             rec = op["chunks"][0]
             op["chunks"] = [rec]
+        if kind == "unordered":
+            # keeping the temporary files must not change what happens to errors
+            op["unordered"]["delete_temp"] = rng.random() < 0.6
         op.update(file=dest[0], path=dest[1], mode=mode)
         return pre, op
     if kind == "scool":
@@ -184,6 +187,9 @@ def run(storerun, rng, cfg, tier):
                 p["cell"] = cell
                 placements.append(p)
     placements += [{"kind": "F4", "open": j} for j in range(nopens)]
+    # a few bursts of consecutive failing opens (a lock held by another program for a while)
+    for _ in range(min(4, nopens)):
+        placements.append({"kind": "F4", "open": rng.randrange(nopens), "width": rng.choice([2, 3, 5])})
     if prod["op"] == "coarsen" and prod.get("nproc", 1) > 1:
         placements += [{"kind": "F6", "task": t, "exc": rng.choice(["MemoryError", "OSError"])}
                        for t in range(ntasks)]
